@@ -533,6 +533,8 @@ class SArr:
         if self.base is not None and self.wmap is not None:
             bidx, _ = self.wmap(idx)
             return self.base.elem(bidx)
+        if self.__dict__.get("_stale"):
+            raise Unsupported("read of an array that was modified through a view the engine does not track")
         return self._elem(idx)
 
     def in_box(self, idx):
@@ -558,6 +560,8 @@ class SArr:
         if self.base is not None and self.wmap is not None:
             b, w = self.base._snapshot(), self.wmap
             return lambda k: b(w(k)[0])
+        if self.__dict__.get("_stale"):
+            raise Unsupported("read of an array that was modified through a view the engine does not track")
         return self._elem
 
     def astype(self, dtype, copy=True):
@@ -763,7 +767,13 @@ class SArr:
         if self.base is not None and self.wmap is not None:
             vo = self.__dict__.get("_view_of")
             if vo is None:
-                raise Unsupported("in-place arithmetic on a view of a view")
+                # a view the engine cannot write through (transpose / view of a view): this object keeps the new values
+                # itself; the underlying array becomes unreadable (any later read of it is refused, never answered wrongly)
+                root = self.base
+                self.base, self.wmap = None, None
+                self._elem = snap
+                root._stale = True
+                return self
             parent, idx = vo
             parent[idx] = res.copy()       # write-through: the view keeps reading its (now updated) base
             return self
